@@ -14,7 +14,8 @@ import vf, args
 
 VT = ["1.0.0", "1.0.1", "1.1.0", "2.0.0-rc", "2.0.0", "2.1.0", "3.0.0"]
 MY_FINDINGS = ["C11-relax-prerelease-caret", "C12-explicit-introduced", "C11-update-nil-range",
-               "C11-override-ineffective-pin-loop", "C11-override-unfixing-patch", "C11-update-maven-hard-range"]
+               "C11-override-ineffective-pin-loop", "C11-override-unfixing-patch", "C11-update-maven-hard-range",
+               "C11-override-maven-hard-range"]
 
 GEN_QUICK = ["Remediation-relax-levels-quick.cfg", "Remediation-relax-options-quick.cfg",
              "Remediation-override-levels-quick.cfg", "Remediation-override-options-quick.cfg",
@@ -223,6 +224,9 @@ def classify(case, f):
         return "C11-override-unfixing-patch"
     if f["kind"] in ("not-upward", "level-exceeded") and o["mode"] == "update" and d.get("update") and hard_involved(sc, d["update"]):
         return "C11-update-maven-hard-range"
+    if (f["kind"] in ("not-upward", "level-exceeded") and o["strategy"] == "override" and d.get("update")
+            and d["update"]["From"][:1] in ("[", "(") and hard_involved(sc, d["update"])):
+        return "C11-override-maven-hard-range"
     return None
 
 
@@ -311,6 +315,15 @@ def designed_cases():
                             if layout:
                                 sc["layout"] = layout
                             out.append({"fam": "Remediation", "cfg": "designed", "scenario": sc, "devs": [], "model": None, "id": vf.case_id(sc)})
+    # Maven: the manifest's own hard range is rewritten to a soft version while another package holds a disjoint hard range
+    for lvl in ("patch", "minor", "major"):
+        sc = {"eco": "Maven",
+              "universe": [{"name": "pkg:a", "versions": [{"v": "1.0.0", "deps": [["pkg:c", "[3.0.0,4.0.0)"]], "latest": True}]},
+                           {"name": "pkg:c", "versions": [{"v": v, "deps": [], "latest": v == "3.0.0"} for v in ("1.0.0", "1.0.1", "1.0.2", "3.0.0")]}],
+              "manifest": [{"name": "pkg:a", "req": "1.0.0", "group": ""}, {"name": "pkg:c", "req": "[1.0.0,1.0.2)", "group": ""}],
+              "vulns": [{"id": "V1", "pkg": "pkg:c", "events": [["introduced", "0"], ["fixed", "1.0.2"]], "sev": "high"}],
+              "opts": dict(base_opts("maven-override"), levels={"": lvl})}
+        out.append({"fam": "Remediation", "cfg": "designed", "scenario": sc, "devs": [], "model": None, "id": vf.case_id(sc)})
     return out
 
 
